@@ -52,7 +52,9 @@ def tables(ne, ng, family):
     cells = ne * ng
     if cells == 0:
         return [tuple(() for _ in range(ne))]
-    if family == "orders":
+    if family == "neartie":   # all strict orders of scores that differ by 2e-7 only (distinct in float64, equal in float32)
+        flats = itertools.permutations([10.0 + 2e-7 * k for k in range(cells)])
+    elif family == "orders":
         flats = itertools.permutations([10.0 + 0.1 * k for k in range(cells)]) if cells <= 4 else \
             itertools.permutations([10.0 + 0.08 * k for k in range(cells)])
     else:
@@ -62,6 +64,8 @@ def tables(ne, ng, family):
 
 def radius_for(ne, ng, family):
     cells = ne * ng
+    if family == "neartie":
+        return 10.5
     if family == "orders":
         step = 0.1 if cells <= 4 else 0.08
         return round(10.0 + step * (cells // 2) - step / 2, 4)
@@ -90,6 +94,8 @@ def layer_a_units(tier):
             u += [dict(layer="A", ne=ne, ng=ng, family="lowhigh", labels="reduced", chunk=[k, 8], trim=tier == "quick") for k in range(8)]
         else:
             u.append(dict(layer="A", ne=ne, ng=ng, family="orders", labels="full" if tier == "thorough" else "reduced", chunk=[0, 1]))
+    for ne, ng in ((1, 2), (2, 1), (2, 2)):
+        u.append(dict(layer="A", ne=ne, ng=ng, family="neartie", labels="reduced", chunk=[0, 1]))
     if tier == "thorough":
         for ne, ng in ((3, 2), (2, 3)):
             u += [dict(layer="A", ne=ne, ng=ng, family="orders", labels="reduced", chunk=[k, 48]) for k in range(48)]
@@ -166,6 +172,8 @@ def pools_b(seed):
 
 
 RADII_B = {"CENTERDISTANCE": [1.5, 1.5], "PLANEDISTANCE": [1.5, 0.8], "IOU2D": [0.2, 0.05], "IOU3D": [0.2, 0.05]}
+# the same kind of setting given as Python ints (what `max_matchable_radii: 2` in a configuration produces)
+RADII_B_INT = {"CENTERDISTANCE": [2, 1], "PLANEDISTANCE": [2, 1], "IOU2D": [0, 0], "IOU3D": [0, 0]}
 
 
 def subsets(n, kmax, both_orders=True):
@@ -193,7 +201,8 @@ def layer_b_cases(unit, seed):
     for es in subs:
         for gs in subs:
             for pol in (unit["policy"],):
-                for radii in (None, RADII_B[unit["mode"]]):
+                with_int = unit["task"] == "detection" and (unit["both"] or unit["mode"] in ("CENTERDISTANCE", "IOU2D"))
+                for radii in ((None, RADII_B[unit["mode"]], RADII_B_INT[unit["mode"]]) if with_int else (None, RADII_B[unit["mode"]])):
                     yield {"layer": "B", "dim": 3, "ests": [est[i] for i in es], "gts": [gt[j] for j in gs], "policy": pol,
                            "radii": radii, "task": unit["task"], "mode": unit["mode"], "tl": TL, "ego": list(ego),
                            "warm": [[0.0, 0.0] if MAXIMIZE[unit["mode"]] else [100.0, 100.0]] + [r for r in (None, RADII_B[unit["mode"]]) if r != radii]}
@@ -226,6 +235,7 @@ def pools_c():
 
 
 RADII_C = {"CENTERDISTANCE": [3.0, 2.0], "IOU2D": [0.5, 0.3]}
+RADII_C_INT = {"CENTERDISTANCE": [3, 2], "IOU2D": [0, 0]}
 
 
 def layer_c_units(tier):
@@ -239,7 +249,7 @@ def layer_c_cases(unit):
     for es in es_subs:
         for gs in gs_subs:
             for pol in POLICIES:
-                for radii in (None, RADII_C[unit["mode"]]):
+                for radii in (None, RADII_C[unit["mode"]], RADII_C_INT[unit["mode"]]):
                     yield {"layer": "C", "dim": 2, "ests": [est[i] for i in es], "gts": [gt[j] for j in gs], "policy": pol,
                            "radii": radii, "task": unit["task"], "mode": unit["mode"], "tl": TL,
                            "warm": [[0.0, 0.0] if MAXIMIZE[unit["mode"]] else [500.0, 500.0]] + [r for r in (None, RADII_C[unit["mode"]]) if r != radii]}
@@ -260,7 +270,7 @@ def layer_m_cases(unit, seed):
     subs = subsets(5, unit["kmax"], False)
     for es in subs:
         for gs in subs:
-            for radii in (None, [1.5, 0.8]):
+            for radii in (None, [1.5, 0.8], [2, 1]):
                 yield {"layer": "M", "dim": 3, "ests": [dict(est[i], frame=unit["frame"]) for i in es], "gts": [dict(gt[j], frame=unit["frame"]) for j in gs],
                        "policy": unit["policy"], "radii": radii, "task": "detection", "mode": "CENTERDISTANCE", "tl": TL, "ego": list(ego)}
 
